@@ -86,40 +86,49 @@ def _pt_ok(b):
     return len(b) == 32 and E.decode(b, strict=False) is not None
 
 
-def _pts_fold(name, items):
-    """ADD_POINTS / SUBTRACT_POINTS"""
-    if name == 'addpts':
-        if any(len(x) != 32 for x in items):
-            return ent(name, items, err='TypeError')
-        if any(not E.is_valid_point(x) for x in items):
-            return ent(name, items, err='ValueError')
-        if not items:
-            return ent(name, items, err='IndexError')
-        acc = items[0]
-        for x in items[1:]:
-            acc = E.point_add(acc, x)
-        return ent(name, items, [acc])
+def _addpts(items):
+    """ADD_POINTS: all items popped first, then validated, then summed"""
+    if any(len(x) != 32 for x in items):
+        return ent('addpts', items, err='TypeError')
+    if any(not E.is_valid_point(x) for x in items):
+        return ent('addpts', items, err='ValueError')
     if not items:
-        return ent(name, items, err='IndexError')
+        return ent('addpts', items, err='IndexError')
+    acc = items[0]
+    for x in items[1:]:
+        acc = E.point_add(acc, x)
+    return ent('addpts', items, [acc])
+
+
+def _sub_chain(name, items):
+    """SUBTRACT_SCALARS / SUBTRACT_POINTS: one binary application per further item"""
+    out = []
     acc = items[0]
     for x in items[1:]:
         if len(acc) != 32 or len(x) != 32:
-            return ent(name, items, err='TypeError')
-        if not _pt_ok(acc) or not _pt_ok(x):
-            return ent(name, items, err='RuntimeError')
-        acc = E.point_sub(acc, x)
-    return ent(name, items, [acc])
+            out.append(ent(name, [acc, x], err='TypeError'))
+            break
+        if name == 'subpts':
+            if not _pt_ok(acc) or not _pt_ok(x):
+                out.append(ent(name, [acc, x], err='RuntimeError'))
+                break
+            nxt = E.point_sub(acc, x)
+        else:
+            nxt = E.scalar_sub(acc, x)
+        out.append(ent(name, [acc, x], [nxt]))
+        acc = nxt
+    return out
 
 
-def _sc_fold(name, items):
+def _addsc(items):
     if not items:
-        return ent(name, items, err='IndexError')
+        return ent('addsc', items, err='IndexError')
     acc = items[0]
     for x in items[1:]:
         if len(acc) != 32 or len(x) != 32:
-            return ent(name, items, err='TypeError')
-        acc = E.scalar_add(acc, x) if name == 'addsc' else E.scalar_sub(acc, x)
-    return ent(name, items, [acc])
+            return ent('addsc', items, err='TypeError')
+        acc = E.scalar_add(acc, x)
+    return ent('addsc', items, [acc])
 
 
 def _base(scalar):
@@ -272,13 +281,16 @@ def prims(op: int, code: bytes, pc: int, stack: list, sc: dict, contracts: dict 
         elif op == 26:
             if n >= 2 and len(top(1)) == 4 and len(top(2)) == 4:
                 out.append(_float2('modf', top(2), top(1)))
-        elif op in (27, 80):
+        elif op == 27:
             c = opnd(0)
             if c is not None:
-                k = c[0] if op == 27 else max(c[0], 1)
-                items = tops(k)
-                if len(items) == k:
-                    out.append(_pts_fold('addpts' if op == 27 else 'subpts', items))
+                items = tops(c[0])
+                if len(items) == c[0]:
+                    out.append(_addpts(items))
+        elif op in (78, 80):
+            c = opnd(0)
+            if c is not None and n:
+                out.extend(_sub_chain('subsc' if op == 78 else 'subpts', tops(max(c[0], 1))))
         elif op == 30:
             if n:
                 out.append(ent('sha256', [top(1)], [hashlib.sha256(top(1)).digest()]))
@@ -344,13 +356,12 @@ def prims(op: int, code: bytes, pc: int, stack: list, sc: dict, contracts: dict 
         elif op == 75:
             if n:
                 out.append(ent('derive_scalar', [top(1)], [E.derive_key_from_seed(top(1))]))
-        elif op in (77, 78):
+        elif op == 77:
             c = opnd(0)
             if c is not None:
-                k = c[0] if op == 77 else max(c[0], 1)
-                items = tops(k)
-                if len(items) == k:
-                    out.append(_sc_fold('addsc' if op == 77 else 'subsc', items))
+                items = tops(c[0])
+                if len(items) == c[0]:
+                    out.append(_addsc(items))
         elif op == 79:
             if n:
                 r = _base(top(1))
@@ -365,6 +376,13 @@ def prims(op: int, code: bytes, pc: int, stack: list, sc: dict, contracts: dict 
         elif op == 84:
             if n >= 3 and len(top(1)) >= 32:
                 out.append(das(top(1), top(2), top(3)))
+        elif op == 85:
+            if n >= 2 and top(2) and contracts and top(1) in contracts:
+                cnt = dec(top(2))
+                if 0 <= cnt <= n - 2:
+                    args = [stack[n - 2 - i] for i in range(1, cnt + 1)]
+                    res = contracts[top(1)].abi(list(args))
+                    out.append(ent('abi', [top(1)] + args, list(res or [])))
         elif op == 91:
             if n >= 2 and len(top(1)) == 32:
                 if len(top(2)) == 32:
